@@ -3,6 +3,7 @@
 package iscp
 
 import (
+	"context"
 	"fmt"
 
 	"github.com/aptpod/iscp-go/transport"
@@ -29,3 +30,26 @@ func VerifDeterministicIDs() {
 	n := 0
 	randomString = func() string { n++; return fmt.Sprintf("call-%d", n) }
 }
+
+// VerifConnStatus exposes the connection status primitive (connStatus) for the C05 lemma harness.
+type VerifConnStatus struct{ s *connStatus }
+
+func VerifNewConnStatus() *VerifConnStatus { return &VerifConnStatus{s: newConnState()} }
+
+func (v *VerifConnStatus) WaitUntil(ctx context.Context, st int) error {
+	return v.s.WaitUntil(ctx, connStatusValue(st))
+}
+func (v *VerifConnStatus) WaitUntilOrClosed(ctx context.Context, st int) error {
+	return v.s.WaitUntilOrClosed(ctx, connStatusValue(st))
+}
+func (v *VerifConnStatus) WithCloseStatus(ctx context.Context) (context.Context, context.CancelFunc) {
+	return v.s.WithCloseStatus(ctx)
+}
+func (v *VerifConnStatus) Swap(st int) int { return int(v.s.Swap(connStatusValue(st))) }
+func (v *VerifConnStatus) CompareAndSwap(o, n int) bool {
+	return v.s.CompareAndSwap(connStatusValue(o), connStatusValue(n))
+}
+func (v *VerifConnStatus) CompareAndSwapNot(o, n int) bool {
+	return v.s.CompareAndSwapNot(connStatusValue(o), connStatusValue(n))
+}
+func (v *VerifConnStatus) Current() int { return int(v.s.Current()) }
